@@ -43,7 +43,7 @@ struct FileState {
   int type = 0;
   uint64_t contentHash = 0;
   bool operator==(const FileState& o) const {
-    return exists == o.exists && ino == o.ino && mtime == o.mtime && size == o.size && type == o.type;
+    return exists == o.exists && ino == o.ino && mtime == o.mtime && size == o.size && type == o.type && contentHash == o.contentHash;
   }
   bool operator!=(const FileState& o) const { return !(*this == o); }
 };
@@ -105,6 +105,7 @@ struct Run {
   bool cycle = false;
   std::map<std::string, std::string> failFlags;   // command -> mode
   std::map<std::string, Rec> recs;
+  std::set<std::string> softAfterFailure;         // commands whose next (non-)execution is not judged
   std::map<std::string, std::vector<std::string>> staleLast;   // stale-file-removal: expected list of its last successful run
   std::map<std::string, bool> staleHas;
   int staleChecks = 0, staleRemovals = 0;
@@ -155,6 +156,19 @@ struct Run {
     s.mtime = sb.mtime_ns;
     s.size = sb.size;
     s.type = (int)sb.type;
+    // what counts as "the same state" depends on the file-system mode the description selects
+    if (desc.fsmode == "device-agnostic") {
+      s.ino = 0;
+    } else if (desc.fsmode == "checksum-only") {
+      s.ino = 0;
+      s.mtime = 0;
+      std::string content;
+      if (readSim(path, &content)) {
+        util::Hasher h;
+        h.str(content);
+        s.contentHash = h.get();
+      }
+    }
     return s;
   }
 
@@ -192,6 +206,12 @@ struct Run {
     simfs::StatBuf sb;
     simfs::fs().fillStat(ino, &sb);
     auto statText = [&](const simfs::StatBuf& b) {
+      if (desc.fsmode == "device-agnostic") return std::to_string(b.mtime_ns) + ":" + std::to_string(b.size) + ":" + std::to_string(b.mode);
+      if (desc.fsmode == "checksum-only") {
+        util::Hasher h;
+        if (ino->type == simfs::Inode::File) h.str(ino->data);
+        return std::to_string(b.size) + ":" + std::to_string(b.mode) + ":" + std::to_string(h.get());
+      }
       return std::to_string(b.ino) + ":" + std::to_string(b.mtime_ns) + ":" + std::to_string(b.size) + ":" + std::to_string(b.mode);
     };
     if (ino->type != simfs::Inode::Dir) {
@@ -507,7 +527,12 @@ void Run::opBuild(const Json& op) {
       const Cmd* p = desc.producer(i);
       if (!p) continue;
       if (predictFail[p->name]) upstreamFailed = true;
-      if (predictRun[p->name]) upstreamRan = true;
+      if (predictRun[p->name]) {
+        // a producer that runs rewrites its outputs: a new timestamp always, new content only sometimes
+        // (in checksum-only mode only the content counts: that case is decided per input further down, by
+        // comparing what the producer will write with what this command recorded)
+        if (!(desc.fsmode == "checksum-only" && p->tool == "shell")) upstreamRan = true;
+      }
       if (p->tool == "phony") {
         // a phony producer forwards failure of its own inputs
         for (auto& pi : p->inputs) {
@@ -536,7 +561,21 @@ void Run::opBuild(const Json& op) {
           else if ((r.trees[i + "#root"] == "-") != (treeRootStat(i) == "-")) exact = false;
           continue;
         }
-        if (!r.ins.count(i) || stateOf(i) != r.ins[i]) run = true;
+        FileState now = stateOf(i);
+        const Cmd* ip = desc.producer(i);
+        if (desc.fsmode == "checksum-only" && ip && ip->tool == "shell" && predictRun[ip->name]) {
+          // the producer rewrites the file before this command is looked at: what counts is what it will contain
+          std::string want;
+          if (expectedContent(i, &want)) {
+            util::Hasher h;
+            h.str(want);
+            now.exists = true;
+            now.type = (int)simfs::Inode::File;
+            now.size = want.size();
+            now.contentHash = h.get();
+          }
+        }
+        if (!r.ins.count(i) || now != r.ins[i]) run = true;
       }
       for (auto& d : r.discovered)
         if (!r.ins.count(d) || stateOf(d) != r.ins[d]) run = true;
@@ -678,6 +717,9 @@ void Run::opBuild(const Json& op) {
   std::set<std::string> actuallyFailed;
   for (auto& n : ran)
     if (!ranOk.count(n)) actuallyFailed.insert(n);
+  // a command whose process exited 0 can still be failed by the build system (malformed dependency file)
+  for (auto& n : failedThisBuild) actuallyFailed.insert(n);
+  std::set<std::string> tainted;
   if (!actuallyFailed.empty() || anyPredictedFailure) {
     failuresInjected++;
     if (ok && !actuallyFailed.empty()) {
@@ -686,7 +728,7 @@ void Run::opBuild(const Json& op) {
       viol("C10.2", "build reported success although these commands failed: " + names);
     }
     // transitive consumers of failed commands
-    std::set<std::string> tainted = actuallyFailed;
+    tainted = actuallyFailed;
     bool grew = true;
     while (grew) {
       grew = false;
@@ -753,6 +795,10 @@ void Run::opBuild(const Json& op) {
     for (auto& i : c->inputs)
       if (isDirNode(i)) hasDir = true;
     if (hasDir && did && buildNo > 1) treeReruns++;
+    if (softAfterFailure.count(c->name)) {
+      if (did && ranOk.count(c->name)) softAfterFailure.erase(c->name);
+      continue;
+    }
     if (want && !did && !predictFail[c->name] && actuallyFailed.empty() && !anyPredictedFailure) {
       std::string why = !recs.count(c->name) ? "never ran successfully" : recs[c->name].defHash != defHashWithNodes(*c) ? "its definition (or the type/filters of one of its input nodes) changed" : "an input or output changed";
       viol(hasDir ? "C12.1" : "C09.2", "command " + c->name + " was not re-executed in build " + std::to_string(buildNo) + " although " + why);
@@ -828,6 +874,18 @@ void Run::opBuild(const Json& op) {
     } else if (ran.count(c->name)) {
       recs[c->name].ok = false;
     }
+  }
+  // everything downstream of a failed command must be re-attempted by the next build that reaches it (C10),
+  // whether or not this build's target reached it
+  std::set<std::string> reached;
+  for (const Cmd* c : order) reached.insert(c->name);
+  for (auto& t : tainted) {
+    if (!recs.count(t)) continue;
+    // reached by this build and skipped because of the failure: must be re-attempted.  Consumers this build did not
+    // reach see the failed output's value change twice (to "failed" and back); whether they re-run when the final
+    // content is identical (checksum-only mode) is not prescribed.
+    if (reached.count(t)) recs[t].ok = false;
+    else softAfterFailure.insert(t);
   }
 }
 
@@ -1036,6 +1094,7 @@ struct Gen {
     }
     if (products.size() > 2) desc.targets["second"] = {products[rng.below(products.size())]};
     if (property == "C12") buildTree();
+    if (rng.chance(300)) desc.fsmode = rng.chance(500) ? "device-agnostic" : "checksum-only";
     desc.normalise();
   }
 
